@@ -19,40 +19,43 @@ Trace == ndJsonDeserialize("sparsevec_trace.ndjson")
 VARIABLE l          \* next event to consume
 NI == 3
 Objs == {1}
-tvars == <<n, content, cit, l>>
+tvars == <<n, content, cit, must, taint, l>>
 
 Ev == Trace[l]
 Step(name) == l <= Len(Trace) /\ Ev.e = name /\ l' = l + 1
 C == content[1]
 M == n[1]
-Set1(nn, nc) == CommitC(Objs, 1, nn, nc, {})
+(* one vector at a time (the recorder continues with the result of Slice / Append): nothing is shared *)
+Val1(nc)        == ValueStepC(Objs, 1, nc)
+Struct1(nc)     == StructStepC(Objs, 1, nc, [i \in Idx(M) |-> i], FALSE)
+Repl1(nn, nc)   == ReplaceStepC(Objs, 1, nn, nc)
+Same            == UNCHANGED <<n, content, must, taint>>
 ArithNames == VecOps \cup ScalarOps \cup SelfOps
 
-TNew     == Step("new")     /\ n' = [o \in Objs |-> Ev.x] /\ content' = [o \in Objs |-> [i \in Idx(Ev.x) |-> 0]]
-                            /\ cit' = [j \in 1..NI |-> IterDead]
-TWrite   == Step("write")   /\ Ev.i \in Idx(M) /\ Set1(M, CWrite(C, Ev.i, Ev.x)) /\ UNCHANGED cit
-TReset   == Step("reset")   /\ Set1(M, CReset(C)) /\ UNCHANGED cit
-TSwap    == Step("swap")    /\ Ev.i \in Idx(M) /\ Ev.k \in Idx(M) /\ Set1(M, CSwap(C, Ev.i, Ev.k)) /\ UNCHANGED cit
-TReverse == Step("reverse") /\ Set1(M, CReverse(C, M)) /\ UNCHANGED cit
-TPermute == Step("permute") /\ Len(Ev.p) = M /\ Set1(M, CPermute(C, Ev.p, M)) /\ UNCHANGED cit
-TSort    == Step("sort")    /\ Set1(M, CSort(C, M, Ev.x = 1)) /\ UNCHANGED cit
+TNew     == Step("new")     /\ Repl1(Ev.x, [i \in Idx(Ev.x) |-> 0]) /\ cit' = [j \in 1..NI |-> IterDead]
+TWrite   == Step("write")   /\ Ev.i \in Idx(M) /\ Val1(CWrite(C, Ev.i, Ev.x)) /\ UNCHANGED cit
+TReset   == Step("reset")   /\ Val1(CReset(C)) /\ UNCHANGED cit
+TSwap    == Step("swap")    /\ Ev.i \in Idx(M) /\ Ev.k \in Idx(M) /\ Struct1(CSwap(C, Ev.i, Ev.k)) /\ UNCHANGED cit
+TReverse == Step("reverse") /\ Struct1(CReverse(C, M)) /\ UNCHANGED cit
+TPermute == Step("permute") /\ Len(Ev.p) = M /\ Struct1(CPermute(C, Ev.p, M)) /\ UNCHANGED cit
+TSort    == Step("sort")    /\ Struct1(CSort(C, M, Ev.x = 1)) /\ UNCHANGED cit
 (* the recorder continues with the result of Slice / Append and abandons the old vector and its iterators *)
 TSlice   == Step("slice")   /\ 0 <= Ev.i /\ Ev.i <= Ev.k /\ Ev.k <= M
-                            /\ Set1(Ev.k - Ev.i, CSlice(C, Ev.i, Ev.k)) /\ cit' = KillIters(cit, {1})
-TAppendS == Step("appends") /\ Set1(M + 1, CAppend(C, M, <<Ev.x>>)) /\ cit' = KillIters(cit, {1})
-TAppendV == Step("appendv") /\ Set1(M + Len(Ev.w), CAppend(C, M, Ev.w)) /\ cit' = KillIters(cit, {1})
+                            /\ Repl1(Ev.k - Ev.i, CSlice(C, Ev.i, Ev.k)) /\ cit' = KillIters(cit, {1})
+TAppendS == Step("appends") /\ Repl1(M + 1, CAppend(C, M, <<Ev.x>>)) /\ cit' = KillIters(cit, {1})
+TAppendV == Step("appendv") /\ Repl1(M + Len(Ev.w), CAppend(C, M, Ev.w)) /\ cit' = KillIters(cit, {1})
 TArith   == /\ l <= Len(Trace) /\ Ev.e \in ArithNames /\ l' = l + 1
             /\ (Ev.e \in VecOps => Len(Ev.w) = M)
-            /\ Set1(M, CArith(Ev.e, C, IF Ev.e \in VecOps THEN FunOf(Ev.w) ELSE ConstFun(M, Ev.x)))
+            /\ Val1(CArith(Ev.e, C, IF Ev.e \in VecOps THEN FunOf(Ev.w) ELSE ConstFun(M, Ev.x)))
             /\ UNCHANGED cit
-TIter    == Step("iter")    /\ CIterNew(Ev.j, 1, 0) /\ UNCHANGED <<n, content>>
-TFrom    == Step("from")    /\ Ev.i \in Idx(M) /\ CIterNew(Ev.j, 1, Ev.i) /\ UNCHANGED <<n, content>>
-TNext    == Step("next")    /\ cit[Ev.j].live /\ cit[Ev.j].pos # Done /\ CIterAdvance(Ev.j) /\ UNCHANGED <<n, content>>
-TWalk    == Step("walk")    /\ UNCHANGED <<n, content, cit>>
-TJWalk   == Step("jwalk")   /\ Len(Ev.w) = M /\ UNCHANGED <<n, content, cit>>
+TIter    == Step("iter")    /\ CIterNew(Ev.j, 1, 0) /\ Same
+TFrom    == Step("from")    /\ Ev.i \in Idx(M) /\ CIterNew(Ev.j, 1, Ev.i) /\ Same
+TNext    == Step("next")    /\ cit[Ev.j].live /\ cit[Ev.j].pos # Done /\ CIterAdvance(Ev.j) /\ Same
+TWalk    == Step("walk")    /\ Same /\ UNCHANGED cit
+TJWalk   == Step("jwalk")   /\ Len(Ev.w) = M /\ Same /\ UNCHANGED cit
 
 TraceInit == /\ l = 1 /\ n = [o \in Objs |-> 0] /\ content = [o \in Objs |-> <<>>]
-             /\ cit = [j \in 1..NI |-> IterDead]
+             /\ cit = [j \in 1..NI |-> IterDead] /\ must = {} /\ taint = [o \in Objs |-> {}]
 TraceNext == TNew \/ TWrite \/ TReset \/ TSwap \/ TReverse \/ TPermute \/ TSort \/ TSlice \/ TAppendS
              \/ TAppendV \/ TArith \/ TIter \/ TFrom \/ TNext \/ TWalk \/ TJWalk
 TraceSpec == TraceInit /\ [][TraceNext]_tvars
